@@ -356,6 +356,25 @@ def d4_dtypes(chk, repo):
                        (is_sym(w.ctx, kw["dtype"], "np.bool_") or is_sym(w.ctx, kw["dtype"], "bool")) and
                        "data" in kw and w.eq(kw["data"], w.spec("self.valid")), "C10.D4",
                        f"valid dataset: {w.src(call)}", w.f, call)
+    # ... and the reader hands the stored dtype back: without it the constructor promotes every real array to float64
+    # (int64 / float32 values come back as float64 - equal numbers, but not the bits that were written)
+    for q, key in ((H5 + "_FieldIO_HDF5._h5_load_field", "array"), (H5 + "_FieldIO_HDF5._h5_legacy_load_field", "field/array")):
+        r = FV(repo, q, self_type=FIELD)
+        news = cm.returned_news(r)
+        chk.require(news, f"{q}: no Field construction")
+        ret, a = news[0]
+        dt, val = a.get("dtype"), a.get("value")
+        ok = False
+        if dt is not None and val is not None:
+            hd = r.ctx.head_of(dt)
+            if hd and hd[0] == "attr" and hd[1] == "dtype":
+                src = r.ctx.args_of(dt)[0]
+                # the dataset the values are read from (value = dataset[...] / dataset[:])
+                hv = r.ctx.head_of(val)
+                ok = bool(hv and hv[0] == "sub" and r.eq(r.ctx.args_of(val)[0], src))
+        chk.ob(f"{q.split('.', 2)[-1]}::stored-dtype-restored", ok, "C10.D4",
+               f"dtype={r.show(dt) if dt is not None else None}: the reader must pass the dtype of the dataset it reads the values from "
+               "(the constructor's default promotes int and float32 arrays to float64)", r.f, ret)
 
 
 def d5_legacy(chk, repo):
